@@ -36,4 +36,14 @@ let () = iter_lines (fun line ->
         @ (match e with
            | Some ClientDisconnected -> ["!CD"] | Some RequestEntityTooLarge -> ["!413"]
            | Some OutOfFuel -> ["!FUEL"] | Some _ -> ["!OTHER"] | None -> []))
+  | ["app"; proto; meth; expect; acts] ->
+      let ex = if expect = "~" then None else Some (hx expect) in
+      let act_of t = match String.split_on_char '/' t with
+        | ["s"; st; hs; exc] -> ASR (hx st, pairs hs, exc = "1")
+        | ["w"; d] -> AWrite (hx d) | ["y"; d] -> AYield (hx d) | _ -> failwith "bad act" in
+      let al = if acts = "~" then [] else List.map act_of (String.split_on_char '+' acts) in
+      let (out, e) = run_app (hx proto) (hx meth) ex (hx "53") (hx "44") al in
+      hex_of_nlist out ^ (match e with None -> "" | Some EWriteBeforeStart -> "!write-before-start"
+                                      | Some EHeadersAlreadySet -> "!headers-already-set" | Some EReraised -> "!reraised"
+                                      | Some EBadStatus -> "!bad-status")
   | _ -> "bad-command")
